@@ -145,6 +145,9 @@ type Unit struct {
 	frameSites map[string]int
 	atAsserts map[*ast.CallExpr][]*Clause
 	refMapValue map[string]bool
+	inCommute bool
+	commuteAlloc string
+	noCommute bool
 }
 
 type engineError struct{ msg string }
